@@ -365,4 +365,96 @@ theorem Tape.step_refines (p : ProgF) (t : Tape) (q pr : Nat) (d : Bool) (q' : N
     · rw [Tape.step_true, Tape.toCfg_ofDir_true]
       exact (step_refines_dir p true q pr q' t.scan t.rspan t.lspan hpos.2 hi).2
 
+/-! ### inside a sweep -/
+
+theorem Span.pull_nil (scan : Nat) (skip : Bool) : Span.pull [] scan skip = (0, 1, []) := rfl
+
+/-- The configurations strictly inside one `Tape.step` (direction-generic): the machine stays in
+    state `q` scanning `scan`, and if `scan` is blank and everything ahead is blank then the span
+    pulled from was empty already (canonicity: no trailing blank block). -/
+theorem step_mid_dir (p : ProgF) (d : Bool) (q pr q' scan : Nat) (P U : Span)
+    (hP : Span.Canon P) (hi : p q scan = some (pr, d, q')) (j : Nat)
+    (hj : j < (Span.pull P scan (q == q')).2.1) :
+    ∃ pushj pullj,
+      stepN p j (Cfg.ofDir d q (Span.unroll U) scan (Span.unroll P))
+        = some (Cfg.ofDir d q pushj scan pullj) ∧
+      (scan = 0 → AllZero pullj → P = []) := by
+  obtain ⟨n, rest, h1, h2, h3, -, -, -⟩ := Span.pull_spec hP.pos scan (q == q')
+  rw [h1] at hj
+  by_cases h0 : n = 0
+  · subst h0
+    have : j = 0 := by omega
+    subst this
+    exact ⟨_, _, rfl, fun _ hz => hP.allZero_iff.1 hz⟩
+  · have hq : q = q' := by simpa using h3 h0
+    subst hq
+    refine ⟨List.replicate j pr ++ Span.unroll U, List.replicate (n - j) scan ++ rest, ?_, ?_⟩
+    · rw [h2]; exact sweep_steps hi n j (by omega) _ rest
+    · intro hs hz
+      subst hs
+      have hr : AllZero rest := (allZero_append.1 hz).2
+      apply hP.allZero_iff.1
+      rw [h2]; exact allZero_append.2 ⟨allZero_replicate_zero n, hr⟩
+
+/-- **Inside a sweep.** For every `j` below the number of cells stepped, the L0 machine after `j`
+    steps is in state `q` scanning the same colour; if that colour is blank and all cells in the
+    direction of travel are blank then `atEdge` already held on the compressed tape; and for
+    `0 < j` the tape is not blank. -/
+theorem Tape.step_mid (p : ProgF) (t : Tape) (q pr : Nat) (d : Bool) (q' : Nat)
+    (hcan : t.Canon) (hi : p q t.scan = some (pr, d, q')) (j : Nat)
+    (hj : j < (t.step d pr (q == q')).2) :
+    ∃ c, stepN p j (t.toCfg q) = some c ∧ c.state = q ∧ c.scan = t.scan ∧
+      (t.scan = 0 → AllZero (if d then c.right else c.left) → t.atEdge d = true) ∧
+      (0 < j → ¬ c.Blank) := by
+  cases d
+  · have hj' : j < (Span.pull t.lspan t.scan (q == q')).2.1 := hj
+    obtain ⟨pushj, pullj, hs, hz⟩ :=
+      step_mid_dir p false q pr q' t.scan t.lspan t.rspan hcan.1 hi j hj'
+    rw [Tape.toCfg_ofDir_false]
+    refine ⟨_, hs, rfl, rfl, ?_, ?_⟩
+    · intro h0 ha
+      have : t.lspan = [] := hz h0 ha
+      simp [Tape.atEdge, h0, this]
+    · intro hj0 hb
+      have : t.lspan = [] := hz hb.1 hb.2.1
+      rw [this, Span.pull_nil] at hj'
+      simp only at hj'
+      omega
+  · have hj' : j < (Span.pull t.rspan t.scan (q == q')).2.1 := hj
+    obtain ⟨pushj, pullj, hs, hz⟩ :=
+      step_mid_dir p true q pr q' t.scan t.rspan t.lspan hcan.2 hi j hj'
+    rw [Tape.toCfg_ofDir_true]
+    refine ⟨_, hs, rfl, rfl, ?_, ?_⟩
+    · intro h0 ha
+      have : t.rspan = [] := hz h0 ha
+      simp [Tape.atEdge, h0, this]
+    · intro hj0 hb
+      have : t.rspan = [] := hz hb.1 hb.2.2
+      rw [this, Span.pull_nil] at hj'
+      simp only at hj'
+      omega
+
+theorem Span.push_eq_nil {U : Span} {pr k : Nat} (h : Span.push U pr k = []) : pr = 0 := by
+  unfold Span.push at h
+  cases U with
+  | nil =>
+    by_cases hp : pr = 0
+    · exact hp
+    · have : (pr == 0) = false := by simpa using hp
+      simp [this] at h
+  | cons b rest =>
+    simp only at h
+    split at h <;> cases h
+
+/-- a step that leaves the compressed tape blank printed a blank -/
+theorem Tape.step_blank_color {t : Tape} {d : Bool} {c : Nat} {sk : Bool}
+    (h : (t.step d c sk).1.blank = true) : c = 0 := by
+  cases d
+  · rw [Tape.step_false] at h
+    simp only [Tape.blank, Bool.and_eq_true, List.isEmpty_iff] at h
+    exact Span.push_eq_nil h.2
+  · rw [Tape.step_true] at h
+    simp only [Tape.blank, Bool.and_eq_true, List.isEmpty_iff] at h
+    exact Span.push_eq_nil h.1.2
+
 end BB
